@@ -127,6 +127,7 @@ def check(ctx, case):
     ctx.label("gen:" + (case.note or "core"))
     accepted_any = False
     results = {}
+    unopt_ok = set()   # (entry, input index) on which the unoptimised module succeeded
     for opt in (False, True):
         c = judge_compile(ctx, case, src, opt)
         results[opt] = c
@@ -140,13 +141,15 @@ def check(ctx, case):
             continue
         executed = 0
         for entry in entries:
-            for args, gl in inputs.get(entry, []):
+            for ii, (args, gl) in enumerate(inputs.get(entry, [])):
                 vm = adapter.new_vm(program)
                 for k, v in deep_copy(gl).items():
                     vm.SetGlobal(k, v)
                 ran = adapter.invoke(vm, entry, deep_copy(args), budget=300000)
                 executed += ran.steps
                 if ran.ok:
+                    if not opt:
+                        unopt_ok.add((entry, ii))
                     continue
                 if ran.diverged:
                     ctx.discard("step-budget-or-wall-clock")
@@ -167,8 +170,10 @@ def check(ctx, case):
                 if name == "RecursionError":
                     ctx.discard("host-recursion-limit")
                     continue
-                ctx.fail("vm|" + adapter.exc_sig(ran.exc), "accepted program fails in the VM (optimize=%s): %r\ninvoke %s(%r) globals=%r\n%s" % (
-                    opt, ran.exc, entry, args, gl, src), case)
+                # a failure that only the optimised module shows is a different defect than one both show
+                only_opt = "|only-when-optimised" if (opt and (entry, ii) in unopt_ok) else ""
+                ctx.fail("vm|" + adapter.exc_sig(ran.exc) + only_opt, "accepted program fails in the VM (optimize=%s%s): %r\ninvoke %s(%r) globals=%r\n%s" % (
+                    opt, ", the unoptimised module succeeds on this input" if only_opt else "", ran.exc, entry, args, gl, src), case)
         if executed and _uses_nonscalar(src):
             ctx.nontrivial((src, opt))
     if results[False] is not None and results[True] is None and accepted_any:
